@@ -48,10 +48,10 @@ CONFIGS = {
         C("file", "file", "dict"),
         C("mem-dict", "mem", "dict"),
         C("mem-list", "mem", "list"),
-        C("rdict-1c", "redis", "dict", ttl1=1, budget=25000),
-        C("rlist-1c", "redis", "list", ttl1=1, budget=25000),
-        C("rdict-2c", "redis", "dict", nc=2, w2=1, lite=1, budget=12000),
-        C("rlist-2c", "redis", "list", nc=2, w2=1, lite=1, budget=12000),
+        C("rdict-1c", "redis", "dict", ttl1=1, budget=20000),
+        C("rlist-1c", "redis", "list", ttl1=1, budget=20000),
+        C("rdict-2c", "redis", "dict", nc=2, w2=1, lite=1, budget=10000),
+        C("rlist-2c", "redis", "list", nc=2, w2=1, lite=1, budget=10000),
     ],
     "thorough": [
         C("file", "file", "dict"),
@@ -66,7 +66,7 @@ CONFIGS = {
     ],
 }
 PATH_CAP = 60
-THREADED_PATHS = 40     # per configuration: paths replayed with the real listener thread of store.py
+THREADED_PATHS = 10     # per configuration: paths replayed with the real listener thread of store.py
 
 
 def P_of(cfg):
